@@ -12,7 +12,7 @@ from hypothesis import strategies as st
 from vf import harness
 from vf.ceosgen import product
 from vf.props import c07, common
-from vf.runner import SetupViolation
+from vf.runner import SetupViolation, heartbeat
 
 ID = "C10"
 LEVEL = "exploration"
@@ -352,6 +352,7 @@ def make_machine(on_history):
         @rule(op=op_strategy)
         def step(self, op):
             self.ops.append(op)
+            heartbeat({"level": self.level, "ops": list(self.ops)})
             discs = self.world.apply(op)
             for d in discs:
                 d.setdefault("context", {})["step"] = len(self.ops) - 1
